@@ -71,8 +71,8 @@ def main():
         print("%-8s %-9s %-28s %s" % (r[0], r[1], ",".join(r[2]), ("also: " + ",".join(r[3])) if r[3] else ""))
     tot = len(rows)
     own = sum(1 for r in rows if r[1] == "DETECTED"); oth = sum(1 for r in rows if r[1] == "other")
-    r1 = [r for r in rows if int(r[0].split("-")[1]) <= 3]; r2 = [r for r in rows if 4 <= int(r[0].split("-")[1]) <= 6]; r3 = [r for r in rows if 7 <= int(r[0].split("-")[1]) <= 9]; r4 = [r for r in rows if 10 <= int(r[0].split("-")[1]) <= 12]; r5 = [r for r in rows if 13 <= int(r[0].split("-")[1]) <= 15]; r6 = [r for r in rows if int(r[0].split("-")[1]) >= 16]
-    for lab, rs in (("round 1", r1), ("round 2", r2), ("round 3", r3), ("round 4", r4), ("round 5", r5), ("round 6", r6)):
+    r1 = [r for r in rows if int(r[0].split("-")[1]) <= 3]; r2 = [r for r in rows if 4 <= int(r[0].split("-")[1]) <= 6]; r3 = [r for r in rows if 7 <= int(r[0].split("-")[1]) <= 9]; r4 = [r for r in rows if 10 <= int(r[0].split("-")[1]) <= 12]; r5 = [r for r in rows if 13 <= int(r[0].split("-")[1]) <= 15]; r6 = [r for r in rows if 16 <= int(r[0].split("-")[1]) <= 18]; r7 = [r for r in rows if int(r[0].split("-")[1]) >= 19]
+    for lab, rs in (("round 1", r1), ("round 2", r2), ("round 3", r3), ("round 4", r4), ("round 5", r5), ("round 6", r6), ("round 7", r7)):
         if rs:
             print(f"{lab}: own check {sum(1 for r in rs if r[1]=='DETECTED')}/{len(rs)}, only another property's check {sum(1 for r in rs if r[1]=='other')}, "
                   f"undecided (analysis error) {sum(1 for r in rs if r[1]=='error')}, missed {sum(1 for r in rs if r[1]=='missed')}")
